@@ -218,6 +218,7 @@ def run(chk):
     t0 = time.time()
     phases = chk.extra.setdefault("phase_seconds", {})
     ok = chk.prove("Props/C13.v", ["Props/C13.vo"], [scope_sets.translate])
+    sc.coqchk(chk, "HyV.Props.C13")
     phases["proof (incl. waiting for the shared build lock)"] = round(time.time() - t0, 1)
     try:
         attrs, uses = scope_sets.listing(vlib.REPO)
